@@ -63,7 +63,56 @@ def run_one(d):
     return meta
 
 
+def prun_one(d):
+    """evaluate one seeded change on its own scratch worktree (so that /repo stays clean and several can run at once)"""
+    name = os.path.basename(d)
+    meta = json.load(open(os.path.join(d, "meta.json")))
+    prop = meta["property"]
+    wt = f"/tmp/seed_wt_{name}"
+    sh(["git", "-C", "/repo", "worktree", "remove", "--force", wt])
+    r = sh(["git", "-C", "/repo", "worktree", "add", "--detach", wt, "HEAD"])
+    res = {}
+    env = dict(ENV, PYVC_REPO=wt, PYTHONPATH=wt, PYVC_EVIDENCE_DIR=f"/tmp/pyvc_mutant_evidence_{name}")
+    run = lambda cmd, **kw: subprocess.run(cmd, capture_output=True, text=True, env=env, **kw)
+    try:
+        rc = run(["/venv/bin/python", os.path.join(d, "demo.py")], cwd="/tmp")
+        res["demo_clean_exit"] = rc.returncode
+        a = run(["git", "-C", wt, "apply", os.path.join(d, "patch.diff")])
+        if a.returncode != 0:
+            a = run(["patch", "-p1", "--fuzz=3", "-d", wt, "-i", os.path.join(d, "patch.diff"), "--no-backup-if-mismatch", "-s"])
+        res["applies"] = a.returncode == 0
+        if res["applies"]:
+            rm = run(["/venv/bin/python", os.path.join(d, "demo.py")], cwd="/tmp")
+            res["demo_mutant_exit"] = rm.returncode
+            t = run(TESTS, cwd=wt)
+            res["tests_tail"] = t.stdout.strip().splitlines()[-1] if t.stdout.strip() else t.stderr[-200:]
+            res["checks"] = {}
+            for p in [prop] + list(meta.get("also_check", [])):
+                c = run([os.path.join(V, "check"), p])
+                lines = [l for l in c.stdout.splitlines() if l.startswith(("VIOLATION", "UNDECIDED", "KNOWN", "["))]
+                res["checks"][p] = {"exit": c.returncode, "lines": [l[:260] for l in lines[:6]]}
+    finally:
+        sh(["git", "-C", "/repo", "worktree", "remove", "--force", wt])
+        shutil.rmtree(f"/tmp/pyvc_mutant_evidence_{name}", ignore_errors=True)
+    meta["ran"] = res
+    json.dump(meta, open(os.path.join(d, "meta.json"), "w"), indent=1)
+    det = {p: c["exit"] for p, c in res.get("checks", {}).items()}
+    print(name, "applies" if res.get("applies") else "DOES NOT APPLY", "demo clean/mut", res.get("demo_clean_exit"), res.get("demo_mutant_exit"), "|",
+          (res.get("tests_tail") or "")[:45], "| detected:", det, flush=True)
+    return meta
+
+
 def main():
+    if sys.argv[1] == "prun":
+        from concurrent.futures import ThreadPoolExecutor
+        ids = [a for a in sys.argv[2:] if not a.startswith("-j")]
+        j = int(([a[2:] for a in sys.argv[2:] if a.startswith("-j")] or ["3"])[0])
+        ids = ids or sorted(os.listdir(os.path.join(V, "seeded")))
+        ds = [os.path.join(V, "seeded", i) for i in ids if os.path.exists(os.path.join(V, "seeded", i, "meta.json"))]
+        with ThreadPoolExecutor(j) as tp:
+            list(tp.map(prun_one, ds))
+        sh(["git", "-C", "/repo", "worktree", "prune"])
+        return
     if sys.argv[1] == "import":
         src, prop, n = sys.argv[2], sys.argv[3], sys.argv[4]
         dst = os.path.join(V, "seeded", f"{prop}_m{n}")
